@@ -365,7 +365,10 @@ def impl(case):
 
         s = d / "sim"
         seed = case["seed"] % 1000
-        res["cli_rep"] = run_cli(["simgenotype", "--model", s / "model.dat", "--mapdir", s / "maps", "--chroms", "1,2", "--seed", seed, "--ref_vcf", s / "ref.vcf.gz", "--sample_info", s / "info.tab", "--pop_field", "--out", o / "a.vcf"])
+        # every other run writes to a name that holds a genotype extension before its last one (cohort.pgen.sim.vcf): the
+        # breakpoints belong next to it, under the name without the last extension
+        stem = "a" if case["seed"] % 2 else "from.pgen.sim"
+        res["cli_rep"] = run_cli(["simgenotype", "--model", s / "model.dat", "--mapdir", s / "maps", "--chroms", "1,2", "--seed", seed, "--ref_vcf", s / "ref.vcf.gz", "--sample_info", s / "info.tab", "--pop_field", "--out", o / (stem + ".vcf")])
         res["cli_file"] = res["cli_rep"]
 
         def api():
@@ -375,7 +378,8 @@ def impl(case):
             sg.output_vcf(bps, ["1", "2"], str(s / "model.dat"), str(s / "ref.vcf.gz"), str(s / "info.tab"), None, True, False, False, str(o / "c.vcf"), SD.silent_log())
 
         res["api_error"] = C.guarded(api)
-        res["out"] = [(text(o / (f + ".bp")), read_vcf(o / (f + ".vcf"))) if (o / (f + ".vcf")).exists() else None for f in ("a", "a", "c")]
+        bp_text = lambda f: text(o / (f + ".bp")) if (o / (f + ".bp")).exists() else f"no breakpoints file at the documented place ({f}.bp)"
+        res["out"] = [(bp_text(f), read_vcf(o / (f + ".vcf"))) if (o / (f + ".vcf")).exists() else None for f in (stem, stem, "c")]
     elif k == "karyogram":
         import contextlib
         import io
